@@ -39,8 +39,17 @@ func NewMemEtcdWatch() *MemEtcdWatch {
 	return &MemEtcdWatch{MemStream: NewMemStream(), In: make(chan *etcdserverpb.WatchRequest, 8)}
 }
 func (m *MemEtcdWatch) Send(r *etcdserverpb.WatchResponse) error {
+	// marshalled at Send time, as gRPC does
+	b, err := r.Marshal()
+	if err != nil {
+		return err
+	}
+	c := &etcdserverpb.WatchResponse{}
+	if err := c.Unmarshal(b); err != nil {
+		return err
+	}
 	m.mu.Lock()
-	m.out = append(m.out, r)
+	m.out = append(m.out, c)
 	m.mu.Unlock()
 	return nil
 }
